@@ -4,5 +4,8 @@ CONSTANTS Procs = {"p1", "p2"}
           Addrs = {1, 2}
           MaxCrash = 0
           MaxPre = 1
+          Mutex = TRUE
+          LockedInit = TRUE
+          Bare = FALSE
 INVARIANT Emit
 CHECK_DEADLOCK FALSE
